@@ -107,6 +107,15 @@ func c10Gen(r *kit.Rand, idx int) c10Case {
 			}
 		}
 	}
+	if len(muts) == 0 && r.Chance(1, 6) && f.Version != 1 {
+		// two tensors whose byte sizes each fit an int64 but whose sum, added to the start of the tensor data,
+		// wraps around 2^64 to a position at or before the header (a caller walking the file by the decoder's
+		// end offset would then decode the same bytes for ever)
+		target := kit.Pick(r, []uint64{0, 0, 32, 64, uint64(dataStart) - 32, 4 * uint64(r.Intn(dataStart/4))})
+		if d := f.WrapPair(b, fields, dataStart, 0, target); d != "" {
+			muts = append(muts, d)
+		}
+	}
 	for k := r.Range(0, 2); (k > 0 || len(muts) == 0) && !strings.Contains(strings.Join(muts, ";"), "wraps"); k-- {
 		switch r.Intn(4) {
 		case 0, 1, 2:
